@@ -63,7 +63,22 @@ def builder_formulas(ctx, fi, L, model):
     run = nd.acc_run("R")
     root = AbsStr([L, run])
     root_pitch = Lin.of(NAT[L]) + nd.run_net(run)
-    paths = paths_of(ctx.repo, fi, [root], summaries=model)
+    try:
+        paths = paths_of(ctx.repo, fi, [root], summaries=model)
+    except CannotDecide as e:
+        # The builder leaves the offset domain (e.g. it asks for a diatonic interval in a symbolic key):
+        # specialise over concrete roots with the real interval code instead.
+        ctx.note("R-C06-1", "%s left the offset domain on root %s.. (%s); specialised over concrete accidentals" % (fi.qualname, L, str(e)[:80]))
+        res = []
+        for acc in ("", "#", "b", "##", "bb", "###", "bbb"):
+            croot = L + acc
+            cp = Lin.of(NAT[L] + acc.count("#") - acc.count("b"))
+            for p in paths_of(ctx.repo, fi, [croot]):
+                if p.kind != "return" or not isinstance(p.value, list):
+                    res.append("root %s: %s %r" % (croot, p.kind, p.value))
+                else:
+                    res.append(chord_formula(p.interp, p.value, L, cp))
+        return res
     res = []
     for p in paths:
         if p.kind != "return" or not isinstance(p.value, list):
@@ -272,6 +287,35 @@ def rule_parser(ctx, mod, sh, mean, model):
                 ok, why = False, "continues with %s, expected the left-hand chord %s (minus repeated notes)" % (tail, wx)
                 break
         ctx.check(ok, R, "poly[%r|%r]" % (kx, ky), fi.where(), "from_shorthand(%s..%s|%s..%s)" % (Lx, kx, Ly, ky), why)
+
+    # (e') polychords whose two roots carry the *same* accidentals: every note comparison is decided, so the
+    # result must be exactly the specified list (Y, then each note of X unless equal to the note just before it)
+    for (Lx, kx), (Ly, ky) in ((("A", "m"), ("F", "")), (("C", ""), ("A", "m")), (("C", ""), ("C", "")), (("D", "m7"), ("G", "7"))):
+        if kx not in known or ky not in known or want_for(kx) is None or want_for(ky) is None:
+            continue
+        rr = nd.acc_run("R")
+        py = Lin.of(NAT[Ly]) + nd.run_net(rr)
+        try:
+            paths = _eval_from_shorthand(ctx, fi, model, lambda: [AbsStr([Lx, rr, kx, "|", Ly, rr, ky])])
+        except (CannotDecide, nd.Shape) as e:
+            raise AnalysisError("from_shorthand(polychord %s%s|%s%s): %s" % (Lx, kx, Ly, ky, e))
+        dl, ds = (LETTERS.index(Lx) - LETTERS.index(Ly)) % 7, (NAT[Lx] - NAT[Ly]) % 12
+        exp = list(want_for(ky))
+        for (l, st) in want_for(kx):
+            n = ((l + dl) % 7, (st + ds) % 12)
+            if n != exp[-1]:
+                exp.append(n)
+        ok, why = bool(paths), "no outcome"
+        for p in paths:
+            if p.kind != "return" or not isinstance(p.value, list):
+                ok, why = False, "%s %r" % (p.kind, p.value)
+                break
+            got = chord_formula(p.interp, p.value, Ly, py)
+            if got != exp:
+                ok, why = False, ("gives (letters, semitones above %s) %s; %s's notes followed by %s's notes, skipping only a note equal to "
+                                  "the one just before it, is %s" % (Ly, got, Ly + ".." + ky, Lx + ".." + kx, exp))
+                break
+        ctx.check(ok, R, "poly.same-acc[%s%s|%s%s]" % (Lx, kx, Ly, ky), fi.where(), "from_shorthand(%s<acc>%s|%s<acc>%s)" % (Lx, kx, Ly, ky), why)
 
     # (f) NC and list input
     for nc in ("NC", "N.C."):
